@@ -520,11 +520,18 @@ Proof.
   intro Hi. rewrite (nth_indep _ false (negb false)) by (rewrite map_length; exact Hi). apply map_nth.
 Qed.
 
-(* when more observations satisfy the thresholds than the space has dimensions: lower = the satisfiers, greater =
-   the violators (each observation in exactly one of them), gamma = #violators / n in [0, 1), zero iff none violates *)
+Lemma search_forced_spec dim n nv : search_forced dim n nv = true <-> (0 < nv /\ dim < n - nv)%nat.
+Proof.
+  unfold search_forced. rewrite andb_true_iff, !Nat.ltb_lt. reflexivity.
+Qed.
+
+(* when some observation violates a threshold and more observations satisfy the thresholds than the space has dimensions:
+   lower = the satisfiers, greater = the violators (each observation in exactly one of them), both non-empty,
+   gamma = #violators / n in (0, 1) *)
 Theorem search_split_spec dim (pts : list point) thr pf dflt :
   length pf = length pts ->
   let viol := violations thr pf in
+  (0 < count_true viol)%nat ->
   (dim < length pts - count_true viol)%nat ->
   exists lower greater gamma,
     search_split dim pts viol dflt = (lower, greater, gamma) /\
@@ -533,11 +540,12 @@ Theorem search_split_spec dim (pts : list point) thr pf dflt :
     (forall x, In x lower <-> exists i, (i < length pts)%nat /\ within thr (nth i pf []) = true /\ nth i pts [] = x) /\
     (forall x, In x greater <-> exists i, (i < length pts)%nat /\ within thr (nth i pf []) = false /\ nth i pts [] = x) /\
     gamma == inject_Z (Z.of_nat (count_true viol)) / inject_Z (Z.of_nat (length pts)) /\
-    0 <= gamma /\ gamma < 1 /\ (gamma == 0 <-> greater = []).
+    0 < gamma /\ gamma < 1 /\ lower <> [] /\ greater <> [].
 Proof.
-  intros L viol Hd.
+  intros L viol Hv Hd.
   assert (Lv : length viol = length pts) by (unfold viol, violations; rewrite map_length; exact L).
-  unfold search_split. apply Nat.ltb_lt in Hd. rewrite Hd. apply Nat.ltb_lt in Hd.
+  unfold search_split.
+  rewrite (proj2 (search_forced_spec dim (length pts) (count_true viol)) (conj Hv Hd)).
   eexists _, _, _. split; [reflexivity|].
   pose proof (count_true_le viol) as Cle.
   assert (Lg : length (select viol pts) = count_true viol) by (apply select_length; exact Lv).
@@ -546,9 +554,9 @@ Proof.
   { apply Permutation_length in P. rewrite app_length in P. lia. }
   set (nv := count_true viol) in *. set (n := length pts) in *.
   assert (Hn : 0 < inject_Z (Z.of_nat n)) by (unfold Qlt, inject_Z; cbn; lia).
-  assert (Hnv : 0 <= inject_Z (Z.of_nat nv)) by (unfold Qle, inject_Z; cbn; lia).
+  assert (Hnv : 0 < inject_Z (Z.of_nat nv)) by (unfold Qlt, inject_Z; cbn; lia).
   assert (Hlt : inject_Z (Z.of_nat nv) < inject_Z (Z.of_nat n)) by (rewrite <- Zlt_Qlt; lia).
-  split; [exact P|]. split; [exact Lg|]. split; [exact Ll|]. split; [|split; [|split; [|split; [|split]]]].
+  split; [exact P|]. split; [exact Lg|]. split; [exact Ll|]. split; [|split; [|split; [|split; [|split; [|split]]]]].
   - intro x. rewrite (In_select _ _ [] x) by (rewrite map_length; exact Lv). split.
     + intros (i & Hi & Hm & Hx). exists i. split; [exact Hi|]. split; [|exact Hx].
       rewrite nth_map_negb in Hm by (fold n; lia). unfold viol in Hm. rewrite nth_violations in Hm by (rewrite L; exact Hi).
@@ -562,21 +570,19 @@ Proof.
     + intros (i & Hi & Hm & Hx). exists i. split; [exact Hi|]. split; [|exact Hx].
       unfold viol. rewrite nth_violations by (rewrite L; exact Hi). rewrite Hm. reflexivity.
   - rewrite Lv. reflexivity.
-  - rewrite Lv. apply Qle_shift_div_l; lra.
+  - rewrite Lv. apply Qlt_shift_div_l; lra.
   - rewrite Lv. apply Qlt_shift_div_r; lra.
-  - rewrite Lv. split.
-    + intro E. assert (E0 : inject_Z (Z.of_nat nv) == 0).
-      { rewrite <- (Qmult_div_r (inject_Z (Z.of_nat nv)) (inject_Z (Z.of_nat n))) by lra. rewrite E. ring. }
-      assert (nv = 0)%nat. { unfold Qeq, inject_Z in E0. cbn in E0. lia. }
-      apply length_zero_iff_nil. lia.
-    + intro E. rewrite E in Lg. cbn in Lg. rewrite <- Lg. unfold Qdiv. cbn. ring.
+  - intro E. rewrite E in Ll. cbn in Ll. lia.
+  - intro E. rewrite E in Lg. cbn in Lg. lia.
 Qed.
 
+(* otherwise - no violator at all, or too few satisfiers - the constructor's split and gamma stay *)
 Theorem search_split_default {A} dim (pts : list A) viol dflt :
-  ~ (dim < length pts - count_true viol)%nat -> search_split dim pts viol dflt = dflt.
+  (count_true viol = 0 \/ ~ (dim < length pts - count_true viol))%nat -> search_split dim pts viol dflt = dflt.
 Proof.
-  intro H. unfold search_split. destruct (Nat.ltb dim (length pts - count_true viol)) eqn:E; [|reflexivity].
-  apply Nat.ltb_lt in E. contradiction.
+  intro H. unfold search_split.
+  destruct (search_forced dim (length pts) (count_true viol)) eqn:E; [|reflexivity].
+  apply search_forced_spec in E. destruct E as [E1 E2]. destruct H as [H|H]; [lia|contradiction].
 Qed.
 
 (* ------------------------------------------------------------------ the ratio clause on a model *)
@@ -613,48 +619,123 @@ Proof.
   - intro E. apply (f_equal (@length _)) in E. rewrite map_length in E. cbn in E. lia.
 Qed.
 
-(* the search variant satisfies it whenever at least one observation violates a threshold ... *)
-Theorem search_ratio_clause_with_violator dim (pts : list point) thr pf dflt lower greater gamma :
+(* the threshold split, whenever it is forced, gives gamma in (0, 1) and satisfies the ratio clause *)
+Theorem search_ratio_clause_forced dim (pts : list point) thr pf dflt lower greater gamma :
   length pf = length pts ->
-  (dim < length pts - count_true (violations thr pf))%nat ->
   (0 < count_true (violations thr pf))%nat ->
+  (dim < length pts - count_true (violations thr pf))%nat ->
   search_split dim pts (violations thr pf) dflt = (lower, greater, gamma) ->
   0 < gamma /\ gamma < 1 /\ ratio_clause gamma lower greater.
 Proof.
-  intros L Hd Hv E.
-  destruct (search_split_spec dim pts thr pf dflt L Hd) as (lo & gr & g & E' & _ & Lg & Ll & _ & _ & _ & G0 & G1 & Gz).
+  intros L Hv Hd E.
+  destruct (search_split_spec dim pts thr pf dflt L Hv Hd) as (lo & gr & g & E' & _ & _ & _ & _ & _ & _ & G0 & G1 & Nl & Ng).
   rewrite E in E'. injection E' as <- <- <-.
-  assert (Ng : greater <> []) by (intro Z; rewrite Z in Lg; cbn in Lg; lia).
-  assert (Nl : lower <> []) by (intro Z; rewrite Z in Ll; cbn in Ll; lia).
-  assert (0 < gamma).
-  { destruct (Qlt_le_dec 0 gamma) as [P|N]; [exact P|]. exfalso. apply Ng. apply Gz. lra. }
   repeat split; try assumption. apply ratio_clause_nonempty; assumption.
 Qed.
 
-(* ... and violates it when none does: gamma = 0, the greater set is empty and its density is NaN *)
+(* the search view builds its estimator with forget factor 0: every observation is kept *)
+Lemma unforgotten_zero n : unforgotten 0 n = Z.of_nat n.
+Proof.
+  unfold unforgotten, trunc, Qmult. cbn [Qnum Qden]. rewrite Z.mul_0_l, Z.quot_0_l by lia. lia.
+Qed.
+
+Lemma kept_obs_all (pts : list point) (vals : list Q) :
+  length vals = length pts -> kept_obs (length pts) pts vals = combine pts vals.
+Proof.
+  intro L. unfold kept_obs. rewrite firstn_all. rewrite <- L. rewrite firstn_all. reflexivity.
+Qed.
+
+(* NO VIOLATOR: the search estimator is the constructor's own (the forced split would leave an empty greater set, which has
+   no density): gamma stays gamma0 (0.2 in the view), the lower set holds the s = max(floor(gamma0 n), 3) observations with the
+   lowest values of the chosen constraint metric and the greater set the n - s >= 1 others, both densities are defined and
+   the ratio lies in (0, 1/gamma0] *)
+Theorem search_model_no_violator gamma0 dim pts vals perm thr pf lower greater gamma :
+  0 < gamma0 -> gamma0 < 1 -> length vals = length pts ->
+  count_true (violations thr pf) = 0%nat ->
+  sorting_perm_b vals perm = true ->
+  search_model gamma0 dim pts vals perm thr pf = Ok (lower, greater, gamma) ->
+  gamma = gamma0 /\
+  exists lo gr, form_model gamma0 0 pts vals perm = Ok (lo, gr) /\ lower = map fst lo /\ greater = map fst gr /\
+    let n := length pts in
+    let s := Z.to_nat (lower_size gamma0 (Z.of_nat n)) in
+    Z.of_nat s = Z.max (Qfloor (inject_Z (Z.of_nat n) * gamma0)) 3 /\
+    length lower = s /\ length greater = (n - s)%nat /\ (3 <= s)%nat /\ (s < n)%nat /\ (10 <= n)%nat /\
+    Permutation (lo ++ gr) (combine pts vals) /\
+    (forall a b, In a lo -> In b gr -> snd a <= snd b) /\
+    ratio_clause gamma lower greater.
+Proof.
+  intros G0 G1 L Hv SP H. unfold search_model in H.
+  destruct (form_model gamma0 0 pts vals perm) as [[lo gr]|] eqn:F; [|discriminate].
+  rewrite search_split_default in H by (left; exact Hv). injection H as <- <- <-.
+  split; [reflexivity|]. exists lo, gr. split; [reflexivity|]. split; [reflexivity|]. split; [reflexivity|].
+  assert (SP' : sorting_perm_b (firstn (Z.to_nat (unforgotten 0 (length pts))) vals) perm = true).
+  { rewrite unforgotten_zero, Nat2Z.id, <- L, firstn_all. exact SP. }
+  assert (F0 : 0 <= 0) by lra.
+  pose proof (split_spec gamma0 0 pts vals perm lo gr F0 L F SP') as S.
+  cbv zeta in S. rewrite unforgotten_zero, Nat2Z.id in S.
+  destruct S as (Ll & Lg & H3 & Hs & Hm & P & Sep).
+  rewrite kept_obs_all in P by exact L.
+  cbv zeta. rewrite !map_length.
+  split.
+  { rewrite Z2Nat.id by (unfold lower_size, SPE_MINIMUM_LOWER_POINT_TOTAL; lia).
+    apply lower_size_floor; [lra|lia]. }
+  repeat (split; [first [assumption|lia]|]).
+  apply (constructor_ratio_clause gamma0 0 pts vals perm lo gr G0 G1 F0 L F SP').
+Qed.
+
+(* EVERY estimator the search view builds - threshold split or constructor's split - has gamma in (0, 1), two non-empty
+   sets, and satisfies the whole ratio clause *)
+Theorem search_model_ratio_clause gamma0 dim pts vals perm thr pf lower greater gamma :
+  0 < gamma0 -> gamma0 < 1 -> length vals = length pts -> length pf = length pts ->
+  sorting_perm_b vals perm = true ->
+  search_model gamma0 dim pts vals perm thr pf = Ok (lower, greater, gamma) ->
+  0 < gamma /\ gamma < 1 /\ lower <> [] /\ greater <> [] /\ ratio_clause gamma lower greater.
+Proof.
+  intros G0 G1 L Lp SP H. unfold search_model in H.
+  destruct (form_model gamma0 0 pts vals perm) as [[lo gr]|] eqn:F; [|discriminate].
+  injection H as H.
+  destruct (search_forced dim (length pts) (count_true (violations thr pf))) eqn:SF.
+  - apply search_forced_spec in SF. destruct SF as [Hv Hd].
+    destruct (search_split_spec dim pts thr pf (map fst lo, map fst gr, gamma0) Lp Hv Hd)
+      as (lo' & gr' & g' & E' & _ & _ & _ & _ & _ & _ & P0 & P1 & Nl & Ng).
+    rewrite H in E'. injection E' as <- <- <-.
+    repeat (split; [assumption|]). apply ratio_clause_nonempty; assumption.
+  - unfold search_split in H. rewrite SF in H. injection H as <- <- <-.
+    assert (SP' : sorting_perm_b (firstn (Z.to_nat (unforgotten 0 (length pts))) vals) perm = true).
+    { rewrite unforgotten_zero, Nat2Z.id, <- L, firstn_all. exact SP. }
+    assert (F0 : 0 <= 0) by lra.
+    destruct (split_spec gamma0 0 pts vals perm lo gr F0 L F SP') as (Ll & Lg & H3 & Hs & _).
+    split; [exact G0|]. split; [exact G1|].
+    split; [intro E; apply (f_equal (@length _)) in E; rewrite map_length in E; cbn in E; lia|].
+    split; [intro E; apply (f_equal (@length _)) in E; rewrite map_length in E; cbn in E; lia|].
+    apply (constructor_ratio_clause gamma0 0 pts vals perm lo gr G0 G1 F0 L F SP').
+Qed.
+
+(* the witness that was the counterexample before the repair of the view (ten 1-d observations 0..9, threshold 100, nothing
+   violates): the estimator is now the constructor's, lower = the three lowest observations, gamma = 1/5 *)
 Definition search_witness_pts : list point := map (fun k => [inject_Z (Z.of_nat k)]) (seq 0 10).
 Definition search_witness_vals : list Q := map (fun k => inject_Z (Z.of_nat k)) (seq 0 10).
 Definition search_witness_pf : list (list Q) := map (fun k => [inject_Z (Z.of_nat k)]) (seq 0 10).
 
-Theorem search_ratio_refuted :
-  exists gamma0 dim pts vals perm thr pf lower greater gamma,
-    0 < gamma0 /\ gamma0 < 1 /\ length vals = length pts /\ length pf = length pts /\
-    sorting_perm_b vals perm = true /\
-    (dim < length pts - count_true (violations thr pf))%nat /\
-    search_model gamma0 dim pts vals perm thr pf = Ok (lower, greater, gamma) /\
-    gamma == 0 /\ greater = [] /\ ~ ratio_clause gamma lower greater.
+Lemma search_examples :
+  let rows a n := map (fun k => [inject_Z (Z.of_nat k)]) (seq a n) in
+  sorting_perm_b search_witness_vals (seq 0 10) = true /\
+  (* threshold 100: nothing violates, ten satisfiers > dimension 1 -> the constructor's split, gamma0 *)
+  count_true (violations [Some 100] search_witness_pf) = 0%nat /\
+  search_model (1 # 5) 1 search_witness_pts search_witness_vals (seq 0 10) [Some 100] search_witness_pf
+    = Ok (rows 0 3, rows 3 7, 1 # 5)%nat /\
+  (* threshold 8: the observations 8 and 9 violate, eight satisfiers > dimension 1 -> the threshold split, gamma = 2/10 *)
+  count_true (violations [Some 8] search_witness_pf) = 2%nat /\
+  search_model (1 # 5) 1 search_witness_pts search_witness_vals (seq 0 10) [Some 8] search_witness_pf
+    = Ok (rows 0 8, rows 8 2, 2 # 10)%nat /\
+  (* threshold 8 in a nine-dimensional space: eight satisfiers do not outnumber the dimension -> the constructor's split *)
+  search_model (1 # 5) 9 search_witness_pts search_witness_vals (seq 0 10) [Some 8] search_witness_pf
+    = Ok (rows 0 3, rows 3 7, 1 # 5)%nat /\
+  (* the density and the ratio of the no-violator estimator on concrete kernel rows: defined, in (0, 5] *)
+  (exists l g r, expected_improvement (1 # 5) [1; 1 # 2; 1 # 4] (repeat (1 # 8) 7) = Some (l, g, r) /\ 0 < r /\ r <= 5).
 Proof.
-  exists (1 # 5), 1%nat, search_witness_pts, search_witness_vals, (seq 0 10), [Some 100], search_witness_pf.
-  eexists _, _, _.
-  split; [reflexivity|]. split; [reflexivity|]. split; [reflexivity|]. split; [reflexivity|].
-  split; [vm_compute; reflexivity|]. split; [vm_compute; lia|].
-  split; [vm_compute; reflexivity|]. split; [reflexivity|]. split; [reflexivity|].
-  intro RC. destruct (RC 1 (repeat 1 10) []) as (l & g & r & E & _).
-  - reflexivity.
-  - reflexivity.
-  - intros x Hx. apply repeat_spec in Hx. subst. lra.
-  - intros x [].
-  - rewrite ei_empty_greater in E. discriminate.
+  cbv zeta. repeat (split; [vm_compute; reflexivity|]).
+  eexists _, _, _. split; [vm_compute; reflexivity|]. vm_compute. split; [reflexivity|discriminate].
 Qed.
 
 (* ------------------------------------------------------------------ soundness of the correspondence check (split) *)
